@@ -309,7 +309,8 @@ class IH(progx.InlineHooks):
                 return bool(sets) and sets[-1][0] == "set_limit"
             return NotImplemented
         if isinstance(recv, tuple) and recv and recv[0] == "struct" and recv[1] == "Parser" and m == "parse_operands" and len(args) == 1:
-            self.events.append(("parse_operands", args[0]))
+            a0 = args[0]
+            self.events.append(("parse_operands", ("grammar", a0[2].get("key")) if isinstance(a0, tuple) and a0 and a0[0] == "struct" else a0))
             self.off += 12
             return self.sc["operands"]
         return progx.InlineHooks.mcall(self, recv, m, args, e, ev)
@@ -317,7 +318,11 @@ class IH(progx.InlineHooks):
     def call(self, p, args, e):
         if p.split("::")[-1] == "lookup_opcode" and len(args) == 1:
             self.events.append(("lookup_opcode", args[0]))
-            return ("some", ("grammar", args[0])) if self.sc["known"] else NONE
+            g = ("struct", "Instruction", {"opname": ("str", "Witness"), "opcode": ("enum", "Op::Witness", []), "capabilities": ("list", []),
+                                           "extensions": ("list", []), "operands": ("list", [("sym", "LOGICAL_OPERAND")]), "key": args[0]})
+            return ("some", g) if self.sc["known"] else NONE
+        if p.split("::")[-2:] == ["Instruction", "new"]:
+            return ("instruction built inside parse_inst", tuple(repr(a) for a in args))
         return progx.InlineHooks.call(self, p, args, e)
 
 
